@@ -18,28 +18,59 @@ is its child list on raw subtrees.  Code-shaped models: `nodeChild` (port of `ts
 `Cursor.lean` (port of tree_cursor.c with the three departures of the reverse iterator as
 `Quirks`).  `Summarized`/`shapeOK` are C02's predicates (checked on every real tree).
 
-Clause → theorem
-* child by index ................ `child_spec`: the port of `ts_node__child` returns exactly the
-  i-th element of the enumeration (descending through hidden children by their cached counts)
-* named child by index .......... `named_child_spec` (hypothesis `anonLeafOK`: unnamed visible nodes
-  are leaves — otherwise the C code descends into them and returns a grandchild)
-* child count ................... `child_count_spec`: advertised count = number of children of
-  `flatten` (via C02.summarize_counts and `flattenKids_length`)
-* previous sibling (cursor) ..... `iterPrev_undoes_iterNext`: the REPAIRED reverse iterator
-  (`Quirks.none`, fixes/C06-cursor-prev-iterator.diff) restores child index, structural index and
-  descendant index of the forward iterator, for all languages, parents and iterator states;
-  `iterPrev_int8_stops`: the CURRENT iterator refuses to step at every child index ≡ 255 (mod 256)
-  (`prev_sibling_cursor` clause is false on the unchanged code: `int8_witness`);
-  `iterPrev_current_stale_si_witness`: the current iterator leaves a wrong structural index after
-  an extra child; `iterPrev_fixed_steps`: the repaired iterator steps at every valid index.
-* S-expression .................. `sexp_spec` (with `write_spec`/`writeKids_spec`): the port of
-  `ts_subtree__write_to_string`/`ts_node_string` prints `render (flatten root)`
-* OPEN (decided on every node of every explored real tree by the judge against `flatten`, and —
-  for all cursor functions and `child`/`named_child` — tied to the ports by correspondence):
-  parent_spec, next/prev_sibling_spec, child_by_field_spec, field_name_spec,
-  first_child_for_byte_spec, descendant_for_range_spec, child_with_descendant_spec,
-  cursor_node_agree (goto_first_child/next_sibling/parent/goto_descendant walk = preorder of
-  `flatten`), descendant_index_spec.
+Clause → theorem (index for all Props files of C06: Props, CursorProps, NodeProps, SiblingZw, NavVariants, FlatProps, FieldProps,
+SiblingNamed, SiblingNamedNext, NamedFcb, CursorFcb).  P = proved ∀-theorem over the code-shaped port (every port is tied to the real API
+by correspondence on every answer); P(h) = proved under decidable hypotheses h that are EVALUATED together with the conclusion on every
+real tree (nodes failing h are counted as outside and coincide with the known findings F1–F10 of notes/C06.md); J = decided by the Lean
+judge against `flatten` on every node of every explored tree, not proved.  All P/P(h) about node.c assume `Summarized` + `shapeOK` of
+C02 (evaluated on every tree by ./check C02).  "Same node" is stated as: same raw subtree and alias (and slot id / position where
+`TSNode`s are compared exactly).
+
+* "the single ordered tree obtained by a depth-first walk" .... the spec `flatten`; P: `flatten_hered` (at every node its children are
+  `enumChildren` of the raw subtree), `flattenKids_refs` (they ARE the `TSNode`s `ts_node_child` hands out), `number_spec` / `flatOf_spec` /
+  `flatOf_good` / `ft_child_spec` (the judge's preorder array is that tree).  That the CURSOR's depth-first walk visits exactly the
+  preorder of `flatten` is J (`walk`), with P for each single move (below)
+* child by index ............................... P(h=∅): `child_spec`; child count `child_count_spec`
+* named child .................................. P(h): `named_child_spec`, h = `anonLeafOK`
+* parent ....................................... P(h): `parent_spec_partial` (non-empty node, h = `pathOK`: slot id unique along the search),
+  `parent_spec_empty` (zero-width node, h = `psPathOK`); every relevant node of every real tree is inside; on `FT`: `nav_ft_spec(_empty)`
+* next / previous sibling ...................... P(h): `next_sibling_spec_anon`, `prev_sibling_spec_anon` with `anon = true` (earlier, narrower:
+  `next_sibling_spec_partial`, `next_sibling_spec_empty`, `prev_sibling_spec_partial`, `prev_sibling_spec_general`); h next = `nsPathOK` (no
+  zero-width raw node follows at the node's end — fails = F4) + for an empty node `nsZwOKA`; h prev = `psPathOK` + `psZwOK` (fails = F10);
+  in list form `node_nav_flat_spec(_empty)`, on `FT` `nav_ft_spec(_empty)`
+* next / previous NAMED sibling ................ P(h): the same two theorems with `anon = false`, h additionally `anonLeafOK`; the link to
+  `FT.next/prevSibling … namedOnly` is evaluated (0 differences), not proved
+* child by field ............................... P(h): `child_by_field_id_spec_partial`, `child_by_field_id_ft_spec`, h = `cbfOK` (+ language
+  premise `fieldMapsSorted`); fails below ERROR nodes = F8.  `child_by_field_name` = id lookup + this: J
+* field name of a child ........................ P(h): `field_name_for_child_spec`, h = `hiddenExtraOK`; `field_name_for_named_child`: J
+* first child for a byte ....................... P(h): `first_child_for_byte_spec_anon` (both flags), `…_flat_spec_anon`, `…_ft_spec_anon`,
+  h = `ndeNodeA` (no dead-end descent; fails = F5) and for the named flag `anonLeafOK`
+* smallest descendant for a byte or point range  P for NON-EMPTY ranges, no hypothesis on the tree: `descendant_for_byte_range_spec_anon`,
+  `descendant_for_point_range_spec_partial` (both flags); on `FT`: `descendant_for_byte_range_ft_spec` (bytes, all nodes; named / point links
+  evaluated only).  EMPTY ranges: J (F6).  Receiver other than the root: the theorems hold for every receiver, the `FT` link is for the root
+* child-containing-descendant .................. P(h): `child_with_descendant_spec_partial`, `child_with_descendant_spec_empty` (h as for parent)
+* cursor first / last child .................... P: `cursor_first_child_spec`, `cursor_last_child_spec`; = node API `cursor_node_agree_first`
+* cursor next sibling .......................... P(h): `cursor_next_sibling_spec`, `cursor_next_sibling_index_spec`, `cursor_node_agree_next`,
+  h = `StackOK` / `IdxOK`, which `CursorInv` implies (`cursorInv_idx`, `cursorInv_linked`) and every move preserves
+  (`gotoChild_preserves_inv`, `gotoNextSibling_preserves_inv`, `gotoPreviousSibling_preserves_inv`)
+* cursor previous sibling ...................... P(h): `cursor_prev_sibling_spec` for the REPAIRED iterator (F1–F3 fixed in /repo;
+  `iterPrev_undoes_iterNext`, `iterPrev_int8_stops`, `int8_witness` document the old defects), h = `CursorInv`, < 2³² children
+* cursor parent ................................ J (+ correspondence); only the ascent inside `goto_descendant` is proved (`ascend_spec`)
+* goto-descendant .............................. P(h): `goto_descendant_spec`, h = `CursorInv`
+* cursor first-child-for-byte / -point ......... P(h): `cursor_first_child_for_spec` (file CursorFcb.lean), h = no dead end (`ndeCur`; fails = F9)
+* depth ........................................ J (+ correspondence)
+* descendant index ............................. P(h): `descendant_index_spec`, h = `CursorInv`
+* field (cursor) ............................... P: `cursor_field_spec`
+* "the node's S-expression is the rendering of that same tree" .. P(h): `sexp_spec`, h = `sexpOK` (fails with a hidden MISSING node = F7)
+* positions / kind / flags of a node ........... J here; the geometry is C02's (`rowcol_by_newlines`, `spans_nested`)
+
+Weak spots found on re-reading the statements against the English: (1) "same node" is (raw subtree, alias) in the sibling / parent /
+field theorems, not the slot id — two structurally equal siblings are identified; the slot id is covered by correspondence and by
+the exact-`TSNode` theorems (`flattenKids_refs`, `first_child_for_byte_ft_spec`, `descendant_for_byte_range_ft_spec`).  (2) The
+node.c theorems quantify over raw paths below the receiver; that every node the API can return lies on such a path is by
+construction of `flat_node_exists`, not a theorem about `TSNode` values coming from elsewhere (e.g. after `ts_node_edit`).  (3) Every
+hypothesis h is about the particular tree, not derived from "the tree came out of the parser".  (4) "trees after edits and
+re-parses", "cursors rooted at inner nodes" of the quantifier are covered by exploration (J), the theorems are per tree.
 -/
 namespace TsVerif.C06
 open TsGen TsVerif TsVerif.C02
